@@ -316,13 +316,27 @@ func runC12(c *core.Ctx) {
 	l := countedLoop(s.Outer, innermostHeader(w.Spawn.Instr.Block()))
 	in := s.Fn.Params[len(s.Fn.Params)-1]
 	ok := l != nil && l.RangeOver != nil && isParamTerm(l.RangeOver, in)
+	// the order in which the copiers are started does not matter: a loop that counts len(in)-1 .. 0 visits every input
+	// once as well
+	descending := false
+	if !ok && l != nil && l.Descending && l.Trip != nil && l.Trip.Op == "len" && len(l.Trip.Args) == 1 && isParamTerm(l.Trip.Args[0], in) {
+		ok, descending = true, true
+	}
+	isElem := func(x *ir.Term) bool {
+		if !descending {
+			return l.IsElem(s.Outer, x)
+		}
+		idx := s.Outer.Start[l.Header].Reg(l.Phi)
+		return ir.Same(x, &ir.Term{Op: "load", Aux: "0", Args: []*ir.Term{{Op: "iaddr", Args: []*ir.Term{l.Trip.Args[0], idx}}}}) ||
+			ir.Same(x, &ir.Term{Op: "index", Args: []*ir.Term{l.Trip.Args[0], idx}})
+	}
 	why := "the spawn loop is not a range over the inputs"
 	if ok {
 		// exactly one argument of the go statement is the input channel of this iteration
 		a := w.Spawn.A
 		nElem := 0
 		for _, x := range a {
-			if l.IsElem(s.Outer, x) {
+			if isElem(x) {
 				nElem++
 			} else if isChanType(x.Typ) && isInputChan(x) {
 				nElem += 100 // another input channel (e.g. a fixed in[0]) handed to the copier
